@@ -48,7 +48,19 @@ class Prop(object):
         self.n = len(a)
         self.name = name
 
+    @staticmethod
+    def _index(i):
+        # an index computed with '/' (a declared int in the generated code):
+        # accepted when integral, where C and Python agree
+        if isinstance(i, float) or (hasattr(i, 'dtype') and
+                                    i.dtype.kind == 'f'):
+            if i != int(i):
+                raise OutOfBounds('non-integral index %r' % (i,))
+            return int(i)
+        return i
+
     def __getitem__(self, i):
+        i = self._index(i)
         if not 0 <= i < self.n:
             raise OutOfBounds('%s[%d] read, length %d' % (self.name, i,
                                                           self.n))
@@ -57,6 +69,7 @@ class Prop(object):
         return self.a[i].item()
 
     def __setitem__(self, i, v):
+        i = self._index(i)
         if not 0 <= i < self.n:
             raise OutOfBounds('%s[%d] written, length %d' % (self.name, i,
                                                              self.n))
@@ -123,7 +136,8 @@ class Interp(object):
                      M_SQRT1_2=math.sqrt(0.5), M_LN2=math.log(2.0),
                      M_LN10=math.log(10.0), M_LOG2E=1 / math.log(2.0),
                      M_LOG10E=1 / math.log(10.0),
-                     M_2_SQRTPI=2 / math.sqrt(math.pi))
+                     M_2_SQRTPI=2 / math.sqrt(math.pi),
+                     INFINITY=float('inf'), NAN=float('nan'))
         for f in ('sqrt', 'sin', 'cos', 'tan', 'exp', 'log', 'log10', 'pow',
                   'fabs', 'floor', 'ceil', 'atan', 'atan2', 'asin', 'acos',
                   'sinh', 'cosh', 'tanh', 'erf', 'fmod'):
